@@ -1,5 +1,5 @@
 From Coq Require Import ZArith List.
-From PV Require Import Base.U64 C04.C04_Heap C11.C11_Model C11.C11_ProofsSafety C11.C11_Proofs.
+From PV Require Import Base.U64 C04.C04_Heap C11.C11_Model C11.C11_ProofsSafety C11.C11_ProofsResp C11.C11_Proofs.
 Import ListNotations.
 
 Theorem rpc_no_access_after_return :
@@ -16,6 +16,15 @@ Theorem rpc_registered_contexts_live :
     (forall t g, adopted_by (pcof s t) = Some g -> c_live (s_ctx s g) = true).
 Proof. exact registered_contexts_live. Qed.
 Print Assumptions rpc_registered_contexts_live.
+
+Theorem rpc_own_response :
+  forall calls script es s,
+    run_events (init true calls script) es = Some s ->
+    forall t r p, In (t, r, p) (rets (s_trace s)) -> (0 <= r)%Z ->
+      exists pre h post, flat script = pre ++ h ++ p ++ post /\
+                         hdr_ok h (c_tag0 (s_ctx s t)) (length p) /\ r = Z.of_nat (length p).
+Proof. exact own_response_all. Qed.
+Print Assumptions rpc_own_response.
 
 Theorem rpc_no_access_after_return_refuted :
   exists calls script es s,
